@@ -42,6 +42,7 @@ type Exec struct {
 	closureIDs map[*SV]*Term
 	closureOf  map[string]*SV
 	writes     map[string]bool // heap components written anywhere (for frame obligations)
+	imVal      types.Type      // value type of the intmap.Map instantiation in use
 	paths      int
 	notes      []string
 	entryEnv   map[string]*SV // parameter bindings at entry
@@ -61,7 +62,35 @@ const maxInlineDepth = 8
 const maxPaths = 20000
 
 // oblige records a proof obligation under the current path condition.
+// assumedImplicit: "option assume-implicit <kind> <label substring>" turns matching implicit
+// obligations of the package into recorded assumptions.
+func (x *Exec) assumedImplicit(kind, label string) bool {
+	if x.unit == nil || x.unit.Spec == nil {
+		return false
+	}
+	for o := range x.unit.Spec.Options {
+		if !strings.HasPrefix(o, "assume-implicit ") {
+			continue
+		}
+		f := strings.SplitN(strings.TrimSpace(strings.TrimPrefix(o, "assume-implicit ")), " ", 2)
+		if f[0] != kind {
+			continue
+		}
+		if len(f) == 1 || strings.Contains(label, strings.TrimSpace(f[1])) {
+			return true
+		}
+	}
+	return false
+}
+
 func (x *Exec) oblige(st *State, kind, label string, tags []string, goal *Term, pos token.Pos) {
+	if !st.dead && !IsTrue(goal) && x.assumedImplicit(kind, label) {
+		x.notes = append(x.notes, "assumed (unchecked, option assume-implicit): "+kind+"["+label+"] in "+x.unit.Key)
+		if IsFalse(goal) {
+			st.dead = true
+		}
+		return
+	}
 	if st.dead || IsTrue(goal) {
 		// still count trivially true obligations so names are stable
 		if !st.dead {
@@ -381,6 +410,12 @@ func (x *Exec) handlePanic(fr *Frame, st *State, i *ssa.Panic) {
 }
 
 func (x *Exec) implicitTags(fr *Frame, kind string) []string {
+	if x.unit != nil && x.unit.Con != nil && x.unit.Con.ImplicitOnly != nil {
+		if t, ok := x.unit.Con.ImplicitOnly[kind]; ok {
+			return append([]string{}, t...)
+		}
+		return []string{"unchecked"}
+	}
 	tags := append([]string{}, x.eng.implicitTags(fr.fn)...)
 	if x.unit != nil && x.unit.Con != nil {
 		for _, t := range x.unit.Con.Tags {
